@@ -191,6 +191,10 @@ func (q Qual) declName(d *Decl) string {
 		}
 		return q.Subj + "." + inst
 	}
+	if q.Canon && d.Pkg != nil {
+		// identity keys tell two packages of the same name apart
+		return d.Pkg.Dir + "." + d.Name
+	}
 	if d.Pkg == q.From || (d.Pkg != nil && q.From != nil && d.Pkg.Dir == q.From.Dir) {
 		return d.Name
 	}
